@@ -38,6 +38,7 @@ inductive V
   | bitOr (a b : V)
   | push (v : V) (i : Nat)
   | ext (v : V) (bytes : List Nat)
+  | extKind (kind : String) (v : V) (bytes : List Nat)
   | append (v : V) (s : S)
   | prepend (v : V) (s : S)
   | insert (v : V) (i : Nat) (s : S)
@@ -164,6 +165,7 @@ partial def parseVKw (k : String) : P V := do
   | "bitor" => let a ← parseV; let b ← parseV; pure (.bitOr a b)
   | "push" => let i ← num; let v ← parseV; pure (.push v i)
   | "ext" => let h ← hexBytes; let v ← parseV; pure (.ext v h)
+  | "extk" => let kind ← next; let h ← hexBytes; let v ← parseV; pure (.extKind kind v h)
   | "append" => let v ← parseV; let s ← parseS; pure (.append v s)
   | "prepend" => let v ← parseV; let s ← parseS; pure (.prepend v s)
   | "insert" => let i ← num; let v ← parseV; let s ← parseS; pure (.insert v i s)
@@ -246,7 +248,7 @@ partial def evalV (x : Ctx) : V → R Bits
     | "str" | "string" | "refstring" | "fromstr" =>
       if validUtf8 bytes then strict else .error (.badOp "not utf8")
     | "bytes" | "vec" => strict
-    | "collect" | "fromvec" | "extend" => viaSyms
+    | "collect" | "fromvec" | "extend" | "collectf" | "collectn" => viaSyms
     | _ => .error (.badOp "entry")
   | .own s => evalS x s
   | .into s => do
@@ -272,6 +274,12 @@ partial def evalV (x : Ctx) : V → R Bits
     let bs ← evalV x v
     let ss ← symsOfAscii x.c bytes
     pure (Seq.extend x.c bs ss)
+  | .extKind kind v bytes => do
+    -- every iterator kind feeds `extend` the same symbols; only size hints differ
+    let bs ← evalV x v
+    let ss ← symsOfAscii x.c bytes
+    if ["filter", "takewhile", "fromfn", "trait"].contains kind then pure (Seq.extend x.c bs ss)
+    else .error (.badOp "ext kind")
   | .append v s => do let bs ← evalV x v; let o ← evalS x s; pure (Seq.append bs o)
   | .prepend v s => do let bs ← evalV x v; let o ← evalS x s; pure (Seq.prepend bs o)
   | .insert v i s => do
@@ -500,6 +508,11 @@ def kmerQuery (x : Ctx) : Q String := do
     | "hash" => do
       let v ← qlift num
       pure (hashStr (Kmer.hashEvents c k st (v % md)))
+    | "hasheq" => do
+      let v ← qlift num
+      let s ← qlift parseS; let bs ← qr (evalS x s)
+      let r ← qres (Kmer.eqSlice x.p c k st (v % md) bs)
+      if r then pure s!"eq:true hash:{boolStr (Kmer.hashEvents c k st (v % md) == Seq.hashEvents c bs)}" else pure "eq:false"
     | "eqk" => do
       let a ← qlift num; let b ← qlift num
       pure s!"{boolStr (a % md == b % md)} {boolStr (a % md != b % md)}"
@@ -581,6 +594,17 @@ def query (x : Ctx) (q : String) : Q String := do
     let r := Serde.ser bs
     let ok := match Serde.de r with | .ok b => b == bs | .error _ => false
     pure s!"{showS x bs} {boolStr ok} {boolStr ok} {r.order} {r.headWidth} {r.headIndex} {r.bits} {natsStr r.data}"
+  | "eqfresh" => do
+    let v ← qlift parseV; let bs ← qr (evalV x v)
+    let ss ← qres (Seq.iterSyms x.p c bs)
+    let fresh := Seq.extend c [] ss
+    let e := boolStr (bs == fresh)
+    let cmp := if isOrd x.name then boolStr (Seq.cmp bs fresh == .eq && Seq.cmp fresh bs == .eq) else "na"
+    pure s!"{e} {e} {e} {boolStr (Seq.hashEvents c bs == Seq.hashEvents c fresh)} {cmp} {e} {boolStr (content c bs == content c fresh)}"
+  | "hasheq" => do
+    let a ← qlift parseS; let b ← qlift parseS
+    let l ← qr (evalS x a); let r ← qr (evalS x b)
+    if l == r then pure s!"eq:true hash:{boolStr (Seq.hashEvents c l == Seq.hashEvents c r)}" else pure "eq:false"
   | "mapget" => do
     let n ← qlift num
     let mut keys : List Bits := []
